@@ -29,14 +29,14 @@ def Kind.eqv (rel tol : Rat) : Kind → Kind → Bool
   | .bag a r1, .bag b r2 => a.eqv b && r1 == r2
   | .bin a _ l1 h1, .bin b _ l2 h2 =>
       a.eqv b && Val.numeq rel tol (.fin l1) (.fin l2) && Val.numeq rel tol (.fin h1) (.fin h2)
-  | .sparse a w1 o1 _ _, .sparse b w2 o2 _ _ =>
-      a.eqv b && Val.numeq rel tol (.fin w1) (.fin w2) && Val.numeq rel tol (.fin o1) (.fin o2)
+  | .sparse a w1 o1 c1 _, .sparse b w2 o2 c2 _ =>
+      a.eqv b && Val.numeq rel tol (.fin w1) (.fin w2) && Val.numeq rel tol (.fin o1) (.fin o2) && c1 == c2
   | .central a, .central b => a.eqv b
   | .irregular a, .irregular b => a.eqv b
   | .stack a, .stack b => a.eqv b
   | .fraction a, .fraction b => a.eqv b
   | .select _, .select _ => true          -- `Select.__eq__` does not look at the quantity
-  | .categorize a _ _, .categorize b _ _ => a.eqv b
+  | .categorize a c1 _, .categorize b c2 _ => a.eqv b && c1 == c2
   | .label, .label => true
   | .untypedLabel, .untypedLabel => true
   | .index, .index => true
@@ -65,10 +65,14 @@ def Key.eqv (rel tol : Rat) : Key → Key → Bool
 mutual
 /-- `a == b` with tolerances `(rel, tol)`. -/
 def eqv (rel tol : Rat) : Agg → Agg → Bool
-  | .node k1 e1 s1 _ kids1, b =>
+  | .node k1 e1 s1 t1 kids1, b =>
     match b with
-    | .node k2 e2 s2 _ kids2 =>
+    | .node k2 e2 s2 t2 kids2 =>
       Kind.eqv rel tol k1 k2 && Val.numeq rel tol e1 e2 && St.eqv rel tol e1 s1 e2 s2 &&
+      -- SparselyBin/Categorize compare their sub-aggregator templates when both still have one
+      (match t1, t2 with
+       | some x, some y => if k1.isSparse then eqv rel tol x y else true
+       | _, _ => true) &&
       eqvKids rel tol kids1 kids2
 
 /-- Children are compared position by position: same number of children, same keys, equal
